@@ -296,8 +296,8 @@ def _job(led, j):
 
 def check(led):
     led.function(FE)
-    led.bounded_item('ConeCyl.calc_fext: every entry proved symbolically (all loads, positions, geometry, load factor symbolic) for the series '
-                     'orders (m1, m2, n2) in %s only; not counted as proved for other orders' % (ORDERS,))
+    # instance at the orders (2, 2, 2) with the REAL fg and numpy's own delete / dot on symbolic entries; the proof for every series order is in
+    # c18_fext_any (vectors in decoded coordinates, fg through the contract proved there)
     led.assume('A6: orthogonality of {1, sin(j t), cos(j t)} over a full period; the axial load is the meridional line load Nxxtop(theta) at '
                'x = 0 (Fourier coefficients Nxxtop[0], Nxxtop[2j-1] (sin), Nxxtop[2j] (cos)), the torque is the uniform shear flow '
                'T/(2 pi r2^2) at x = 0, the pressure acts on w over the surface element r dtheta dx')
